@@ -26,7 +26,8 @@ open HalmosVerif.Props.C01 (exEnv exI exOracle exF0 exPC exWC)
 /-- **atomic_model.** The running frame is a callee (`cs.conts = k :: ks`) and ends with an untagged halt that is not
     a success (REVERT, INVALID, a failed check, …): the path continues with exactly one state, the caller `k`, with
       * the storage and transient-storage maps of *every* account as saved at the call (`k.snapshot`), and the world's
-        log as saved at the call (`k.snapLogs`) — whatever the callee and its own callees wrote or emitted is gone;
+        log and the balance array as saved at the call (`k.snapLogs`, `k.snapBal`) — whatever the callee and its own
+        callees wrote, emitted or transferred (the call's own value included) is gone;
       * the flag 0 on the stack, the callee's data as return data, its first `min(ret_size, len)` bytes in the return
         area, the pc one further;
       * the path conditions and the rest of the suspended callers as they are. -/
@@ -34,14 +35,15 @@ theorem atomic_model (cs : CState) (k : Cont) (ks : List Cont) (hc : cs.conts = 
     (h : Evm.Halt) (ho : e.out = .halt h) (ht : e.tag = .normal) (hf : haltOk h = false) :
     ∃ cs', (frameEnd cs e).next = [cs'] ∧ (frameEnd cs e).ends = [] ∧
       (∀ a, viewOf cs' a = stoOf k.snapshot a) ∧ cs'.stores = k.snapshot ∧ cs'.logs = k.snapLogs ∧
-      cs'.st.stack = .bv 256 (.con 0) :: k.st.stack ∧ cs'.st.returndata = haltData h e.data ∧
+      cs'.bal = k.snapBal ∧ cs'.st.stack = .bv 256 (.con 0) :: k.st.stack ∧ cs'.st.returndata = haltData h e.data ∧
       cs'.st.mem = writeMem k.st.mem k.retLoc ((haltData h e.data).take (min k.retSize (haltData h e.data).length)) ∧
       cs'.st.pc = k.st.pc + 1 ∧ cs'.st.path = e.st.path ∧ cs'.conts = ks ∧ cs'.this = k.this ∧ cs'.env = k.env ∧
       cs'.code = k.code := by
   rw [frameEnd_resume hc ho ht]
-  refine ⟨_, rfl, rfl, fun a => ?_, ?_, ?_, ?_, rfl, rfl, rfl, rfl, rfl, rfl, rfl, rfl⟩
+  refine ⟨_, rfl, rfl, fun a => ?_, ?_, ?_, ?_, ?_, rfl, rfl, rfl, rfl, rfl, rfl, rfl, rfl⟩
   · simp only [viewOf, resume, hf, Bool.false_eq_true, if_false]
     exact view_eta _ _ a
+  · simp [resume, hf]
   · simp [resume, hf]
   · simp [resume, hf]
   · simp [resume, hf]
@@ -50,12 +52,13 @@ theorem atomic_model (cs : CState) (k : Cont) (ks : List Cont) (hc : cs.conts = 
 theorem success_model (cs : CState) (k : Cont) (ks : List Cont) (hc : cs.conts = k :: ks) (e : EndState)
     (h : Evm.Halt) (ho : e.out = .halt h) (ht : e.tag = .normal) (hf : haltOk h = true) :
     ∃ cs', (frameEnd cs e).next = [cs'] ∧
-      (∀ a, viewOf cs' a = stoOf (fullOf cs e) a) ∧ cs'.logs = cs.logs ∧
+      (∀ a, viewOf cs' a = stoOf (fullOf cs e) a) ∧ cs'.logs = cs.logs ∧ cs'.bal = cs.bal ∧
       cs'.st.stack = .bv 256 (.con 1) :: k.st.stack ∧ cs'.st.returndata = haltData h e.data := by
   rw [frameEnd_resume hc ho ht]
-  refine ⟨_, rfl, fun a => ?_, ?_, ?_, rfl⟩
+  refine ⟨_, rfl, fun a => ?_, ?_, ?_, ?_, rfl⟩
   · simp only [viewOf, resume, hf, if_true]
     exact view_eta _ _ a
+  · simp [resume, hf]
   · simp [resume, hf]
   · simp [resume, hf]
 
@@ -64,7 +67,8 @@ theorem success_model (cs : CState) (k : Cont) (ks : List Cont) (hc : cs.conts =
     in that very state. -/
 theorem snapshot_model (s : Simp) (cs : CState) (op t ao al ro rl : Nat) (rest : List HV) (prog : List Nat) :
     ∃ k, (calleeOf s cs op t ao al ro rl rest prog).conts = k :: cs.conts ∧
-      (∀ a, stoOf k.snapshot a = viewOf cs a) ∧ k.snapLogs = cs.logs ∧ k.this = cs.this ∧ k.env = cs.env ∧
+      (∀ a, stoOf k.snapshot a = viewOf cs a) ∧ k.snapLogs = cs.logs ∧ k.snapBal = cs.bal ∧ k.this = cs.this ∧
+      k.env = cs.env ∧
       k.code = cs.code ∧ k.retLoc = ro ∧ k.retSize = rl ∧ k.st = { cs.st with stack := rest } ∧
       (∀ a, viewOf (calleeOf s cs op t ao al ro rl rest prog) a = viewOf cs a) ∧
       (calleeOf s cs op t ao al ro rl rest prog).logs = cs.logs ∧
@@ -72,7 +76,7 @@ theorem snapshot_model (s : Simp) (cs : CState) (op t ao al ro rl : Nat) (rest :
   have hsto : ∀ a, stoOf (stoSet cs.stores cs.this
       { storage := cs.st.storage, transient := cs.st.transient }) a = viewOf cs a := by
     intro a; rw [stoOf_stoSet]; rfl
-  refine ⟨_, rfl, hsto, rfl, rfl, rfl, rfl, rfl, rfl, rfl, fun a => ?_, rfl, rfl⟩
+  refine ⟨_, rfl, hsto, rfl, rfl, rfl, rfl, rfl, rfl, rfl, rfl, fun a => ?_, rfl, rfl⟩
   have : viewOf (calleeOf s cs op t ao al ro rl rest prog) a =
       stoOf (stoSet cs.stores cs.this { storage := cs.st.storage, transient := cs.st.transient }) a :=
     view_eta _ _ a
@@ -83,11 +87,12 @@ theorem snapshot_model (s : Simp) (cs : CState) (op t ao al ro rl : Nat) (rest :
 theorem atomic_roundtrip (s : Simp) (cs : CState) (op t ao al ro rl : Nat) (rest : List HV) (prog : List Nat)
     (e : EndState) (h : Evm.Halt) (ho : e.out = .halt h) (ht : e.tag = .normal) (hf : haltOk h = false) :
     ∃ cs', (frameEnd (calleeOf s cs op t ao al ro rl rest prog) e).next = [cs'] ∧
-      (∀ a, viewOf cs' a = viewOf cs a) ∧ cs'.logs = cs.logs ∧ cs'.conts = cs.conts ∧ cs'.this = cs.this := by
-  obtain ⟨k, hk, hsnap, hlg, hthis, _⟩ := snapshot_model s cs op t ao al ro rl rest prog
-  obtain ⟨cs', h1, _, hv, _, hl, _, _, _, _, _, hc, ht', _⟩ :=
+      (∀ a, viewOf cs' a = viewOf cs a) ∧ cs'.logs = cs.logs ∧ cs'.bal = cs.bal ∧ cs'.conts = cs.conts ∧
+      cs'.this = cs.this := by
+  obtain ⟨k, hk, hsnap, hlg, hbl, hthis, _⟩ := snapshot_model s cs op t ao al ro rl rest prog
+  obtain ⟨cs', h1, _, hv, _, hl, hb, _, _, _, _, _, hc, ht', _⟩ :=
     atomic_model (calleeOf s cs op t ao al ro rl rest prog) k cs.conts hk e h ho ht hf
-  exact ⟨cs', h1, fun a => (hv a).trans (hsnap a), hl.trans hlg, hc, ht'.trans hthis⟩
+  exact ⟨cs', h1, fun a => (hv a).trans (hsnap a), hl.trans hlg, hb.trans hbl, hc, ht'.trans hthis⟩
 
 /-- **conts_discipline.** One step of the frame-stack machine keeps the suspended callers, pushes one on top (a call)
     or pops the top one (the running frame ended): a suspended caller — its state, its snapshot — is never modified
@@ -142,17 +147,18 @@ theorem atomic_spec {p : Evm.Params} {w w1 : Evm.World} {f f1 : Evm.Frame} {kind
 /-- **atomic_sim.** In the simulation behind `C01.sound_calls` / `C02.complete_calls`: the running frame is a callee,
     related to the concrete frame `f` (suspended concrete callers `kcs`), which terminates with `r1`; the model's end
     state `e` reports `r1` and it is a failure. Then the concrete caller on top of `kcs` resumes in *its call-time
-    world* `kc.w`, that world is described by the model's snapshot (maps of all modelled accounts, log), and the
+    world* `kc.w`, that world is described by the model's snapshot (maps of all modelled accounts, log, balances), and the
     model's resumed state is related to the reference's resumed caller. -/
 theorem atomic_sim {I : Interp} {p : Evm.Params} {S : Nat → Prop} {w0 : Evm.World} {cs : CState} {w : Evm.World}
     {f : Evm.Frame} {kcs : List CCont} (hrel : RelC I p S w0 cs w f kcs) {k : Cont} {ks : List Cont}
     (hc : cs.conts = k :: ks) {r1 : Evm.World × Evm.Halt} (hh : Halts p w f r1) {h : Evm.Halt} {e : EndState}
     (hres : haltWith h (e.data.map (·.eval I)) = r1.2) (hdwf : ∀ b ∈ e.data, b.WF ∧ b.width = 8)
-    (hk : Keeps e.st cs.st) (hW : WRelM I S w0 r1.1 (stoOf (fullOf cs e)) (evalLogs I cs.logs))
+    (hk : Keeps e.st cs.st)
+    (hW : WRelM I S w0 r1.1 (stoOf (fullOf cs e)) (evalLogs I cs.logs) (balSem I w0 cs.bal))
     (hf : haltOk h = false) :
     ∃ kc kcs', kcs = kc :: kcs' ∧ resumeWorld kc r1 = kc.w ∧
-      WRelM I S w0 kc.w (stoOf k.snapshot) (evalLogs I k.snapLogs) ∧
-      RelC I p S w0 (resume (fullOf cs e) cs.logs k ks h e) kc.w (resumeFrame kc r1.2) kcs' ∧
+      WRelM I S w0 kc.w (stoOf k.snapshot) (evalLogs I k.snapLogs) (balSem I w0 k.snapBal) ∧
+      RelC I p S w0 (resume (fullOf cs e) cs.logs cs.bal k ks h e) kc.w (resumeFrame kc r1.2) kcs' ∧
       ∀ r, RunStack p w f kcs r ↔ RunStack p kc.w (resumeFrame kc r1.2) kcs' r := by
   obtain ⟨kc, kcs', hkcs, hrel', hiff⟩ := (frame_end hrel hh hres hdwf hk hW).2 k ks hc
   have hconts := hrel.conts
@@ -160,7 +166,7 @@ theorem atomic_sim {I : Interp} {p : Evm.Params} {S : Nat → Prop} {w0 : Evm.Wo
   cases hconts with
   | cons hk1 _ =>
     have hsucc : r1.2.isSuccess = false := by rw [← hres, haltWith_isSuccess, hf]
-    have hcr : r1.1.created = kc.w.created := hW.rest.2.2.2.1.trans hk1.hW.rest.2.2.2.1.symm
+    have hcr : r1.1.created = kc.w.created := hW.created.trans hk1.hW.created.symm
     have hw : resumeWorld kc r1 = kc.w := by
       simp only [resumeWorld, hsucc, Bool.false_eq_true, if_false, hcr]
     rw [hw] at hrel' hiff
@@ -191,7 +197,7 @@ theorem context_table_model (s : Simp) (cs : CState) (t ao al ro rl : Nat) (rest
       (c 0xfa).env.callvalue = .lit 256 0 ∧ (c 0xfa).env.isStatic = true) ∧
     (∀ op, (c op).code = prog ∧ (c op).depth = cs.depth + 1 ∧ (c op).env.origin = cs.env.origin ∧
       (c op).env.cdSize = al ∧ (c op).st.pc = 0 ∧ (c op).st.stack = [] ∧ (c op).st.mem = []) := by
-  simp [calleeOf]
+  simp [calleeOf, calleeOfG]
 
 /-- **context_table_spec.** The same table for the frame `Spec.Evm.exec` starts. -/
 theorem context_table_spec (f : Evm.Frame) (w : Evm.World) (tgt ao al : Nat) :
@@ -203,7 +209,18 @@ theorem context_table_spec (f : Evm.Frame) (w : Evm.World) (tgt ao al : Nat) :
     ((c 0xfa).this = tgt ∧ (c 0xfa).caller = f.this ∧ (c 0xfa).value = 0 ∧ (c 0xfa).isStatic = true) ∧
     (∀ kind, (c kind).code = (w.codeOf tgt).getD [] ∧ (c kind).depth = f.depth + 1 ∧
       (c kind).calldata = Evm.readBytes f.mem ao al ∧ (c kind).pc = 0 ∧ (c kind).stack = [] ∧ (c kind).mem = []) := by
-  simp [calleeFrame]
+  simp [calleeFrame, calleeFrameV]
+
+/-- the value-bearing rows: a CALL / CALLCODE with the value `cv` gives the callee `msg.value = cv` (the model) resp.
+    `v` (the reference); DELEGATECALL keeps the caller's value -/
+theorem context_table_value (s : Simp) (cs : CState) (t ao al ro rl : Nat) (rest : List HV) (prog : List Nat) (cv : T)
+    (sb : List (T × T)) (f : Evm.Frame) (w : Evm.World) (v : Nat) :
+    (calleeOfG s cs 0xf1 t ao al ro rl rest prog cv sb).env.callvalue = cv ∧
+    (calleeOfG s cs 0xf2 t ao al ro rl rest prog cv sb).env.callvalue = cv ∧
+    (calleeOfG s cs 0xf4 t ao al ro rl rest prog cv sb).env.callvalue = cs.env.callvalue ∧
+    (calleeFrameV 0xf1 f w t v ao al).value = v ∧ (calleeFrameV 0xf2 f w t v ao al).value = v ∧
+    (calleeFrameV 0xf4 f w t v ao al).value = f.value := by
+  simp [calleeOfG, calleeFrameV]
 
 /-- **context_sim.** The link: the symbolic context of the model's callee denotes, under every valuation, the context
     of the reference's callee frame — `msg.sender`, `address(this)`, `msg.value`, every calldata word and byte, the
